@@ -256,6 +256,9 @@ impl Report {
         cov.insert("transitions".into(), json!(self.acc.transitions));
         cov.entry("traces_validated_against_impl".to_string())
             .or_insert(json!(self.acc.evaluations));
+        cov.entry("traces_validation".to_string()).or_insert(json!(
+            "there is no separate abstract model to bind: every explored state, transition, schedule and fault point is an execution of the real grenad code built from /repo's working tree (hooks on), compared step by step with the harness's reference model; traces_validated_against_impl therefore counts executions"
+        ));
         cov.insert("distinct_nontrivial".into(), json!(self.acc.nontrivial));
         cov.insert("outcome_histogram".into(), json!(self.acc.hist));
         cov.insert("counters".into(), json!(self.acc.counters));
